@@ -789,7 +789,7 @@ func (e *locksetEngine) mutatesRecv(fn *ssa.Function) bool {
 	}
 	e.mutMemo[fn] = 2
 	recv := fn.Params[0]
-	derived := func(v ssa.Value) bool { return rootsAt(v, recv, 0) }
+	derived := func(v ssa.Value) bool { return rootsAtDeep(v, recv, 0) }
 	res := false
 	allInstrs(fn, func(in ssa.Instruction) {
 		if res {
